@@ -138,6 +138,16 @@ def run(tier, seed):
             names = [c.__name__ for c in type(e).__mro__]
             if "SimpleDDLParserException" not in names or not all(m in str(e) for m in ("hql", "mysql", "bigquery", "sql")):
                 V.mismatch({"problem": "unknown output_mode: wrong exception or message", "mode": bad, "error": [names[:3], str(e)[:200]]}, paths=["bad_mode"])
+    # ---- the end-to-end composition (spec/System.tla): which exception wins, and that silent only removes the raising
+    from .. import sys_check as SY
+    sc, ss, st, sn = SY.leg(V, tier, seed, "C16: <=3 statements of 11 kinds, silent and raising",
+                            ["table", "sequence", "schema", "go", "insert", "select", "view", "alter", "index", "set", "comment"], MaxStmts=3,
+                            Silents=SY.bset([True, False]), cap=5000 if not thorough else 40000,
+                            negative=("fold_while_parsing", "OutcomeOK", {"MaxStmts": 2}),
+                            sim={"consts": {"MaxStmts": 5}, "simulate": "num=3000", "depth": 40} if thorough else None)
+    cov["system_composition"] = sc
+    states += ss
+    trans += st
     rc = V.finish()
     b = behs[0]
     cov.update({"states": states, "transitions": trans, "traces_validated_against_impl": total + n,
